@@ -564,7 +564,7 @@ func SameDatumPath(p *core.Prog, r *core.Report) {
 			case pp.hasPath && len(keys) == 0:
 				r.OK(rule, key, p.Pos(ctor.Pos()), "validates the method's own datum under the receiver's own path")
 			case !pp.hasPath:
-				r.Unk(rule, key, p.Pos(ctor.Pos()), "the path handed to the sub-validator of the same datum is not derived from the receiver's path")
+				r.Bad(rule, key, p.Pos(ctor.Pos()), "the sub-validator judges the very datum the method received but its path ("+describe(ctor.Call.Args[2])+") is not derived from the receiver's path: its errors are no longer named by the caller's root path extended by the members leading to the offending object")
 			default:
 				r.Bad(rule, key, p.Pos(ctor.Pos()), "the sub-validator judges the very datum the method received but is built with the path extended by "+describe(keys[0])+": its errors name a member below that key instead of the offending one (schema dependency {a: {required:[b], properties:{c:{type:integer}}}} on {a:1, c:\"x\"} reports a.b and a.c, the offenders are b and c)")
 			}
